@@ -28,6 +28,64 @@ def _strip_json(e, fi=None):
     return names[0] if len(set(names)) == 1 else None
 
 
+def update_model(prog, fi):
+    """The dynamic UPDATE of SqliteStorage.update_bucket as data: which (column, value expression) pairs are candidates,
+    how they are filtered, and whether the SET list and the bindings are the two halves of the same filtered pairs.
+    -> dict(pairs=[(col, expr)], ok=bool, why=str)"""
+    from ..trace import resolve
+
+    out = {"pairs": [], "ok": False, "why": ""}
+    ss = [x for x in sql_sites(prog) if x.fi is fi and x.stmt.kind == "update"]
+    if len(ss) != 1 or not ss[0].stmt.setlist_dynamic or getattr(ss[0], "bind_star", None) is None:
+        out["why"] = "no single UPDATE with a SET list built from the supplied fields"
+        return out
+    site = ss[0]
+    star = site.bind_star.elts[0]
+    if not (isinstance(star, ast.Starred) and isinstance(star.value, ast.Name)) or any(isinstance(x, ast.Starred) for x in site.bind_star.elts[1:]):
+        out["why"] = f"bindings are `{norm(site.bind_star)}`"
+        return out
+    vals_var = star.value.id
+    # the generator of the SET list
+    joins = [n for n in walk_with_nested_exprs(fi.node) if isinstance(n, ast.Call) and isinstance(n.func, ast.Attribute) and n.func.attr == "join" and n.args and isinstance(n.args[0], (ast.GeneratorExp, ast.ListComp))]
+    joins = [j for j in joins if isinstance(j.args[0].elt, ast.JoinedStr)]
+    if len(joins) != 1 or not isinstance(joins[0].args[0].generators[0].iter, ast.Name):
+        out["why"] = "cannot find the SET list generator"
+        return out
+    cols_var = joins[0].args[0].generators[0].iter.id
+    # cols, vals = zip(*filtered)
+    zips = [n for n in walk_own(fi.node) if isinstance(n, ast.Assign) and isinstance(n.targets[0], ast.Tuple) and [norm(t) for t in n.targets[0].elts] == [cols_var, vals_var] and isinstance(n.value, ast.Call) and norm(n.value.func) == "zip" and len(n.value.args) == 1 and isinstance(n.value.args[0], ast.Starred)]
+    if len(zips) != 1:
+        out["why"] = f"`{cols_var}` (SET list) and `{vals_var}` (bindings) are not the two halves of one zip(*pairs): columns and values may no longer be paired"
+        return out
+    filt = resolve(zips[0].value.args[0].value, fi)
+    if not (isinstance(filt, ast.ListComp) and len(filt.generators) == 1):
+        out["why"] = f"the zipped pairs are `{norm(filt)[:60]}`"
+        return out
+    gen = filt.generators[0]
+    if not (isinstance(gen.target, ast.Tuple) and len(gen.target.elts) == 2 and all(isinstance(t, ast.Name) for t in gen.target.elts)):
+        out["why"] = "pairs are not unpacked as (column, value)"
+        return out
+    k, v = gen.target.elts[0].id, gen.target.elts[1].id
+    if not (isinstance(filt.elt, ast.Tuple) and [norm(x) for x in filt.elt.elts] == [k, v]):
+        out["why"] = f"the filtered pairs are rebuilt as `{norm(filt.elt)}`"
+        return out
+    if [norm(c) for c in gen.ifs] not in ([f"{v} is not None"], [f"not {v} is None"], [f"{v} != None"]):
+        out["why"] = f"pairs are filtered by {[norm(c) for c in gen.ifs]}, not by `value is not None`"
+        return out
+    src = resolve(gen.iter, fi)
+    if not isinstance(src, (ast.List, ast.Tuple)):
+        out["why"] = f"candidate pairs are `{norm(src)[:60]}`"
+        return out
+    for t in src.elts:
+        if isinstance(t, ast.Tuple) and len(t.elts) == 2 and isinstance(t.elts[0], ast.Constant):
+            out["pairs"].append((t.elts[0].value, t.elts[1]))
+        else:
+            out["why"] = f"candidate `{norm(t)}` is not a (column, value) pair"
+            return out
+    out["ok"] = True
+    return out
+
+
 def field_tables(prog, rep):
     rep.rule("FIELDS", "create_bucket maps its parameters to the listed metadata keys {bucket_id:id, type_id:type, client, hostname, created, name, data} and update_bucket {type_id:type, client, hostname, name, data}, in every backend, through the writer table (INSERT columns / create() keywords / dict literal) composed with the reader table (SELECT positions -> row[i] -> keys / json() / the stored dict)")
     sites = sql_sites(prog)
@@ -54,8 +112,12 @@ def field_tables(prog, rep):
             continue
         cols = [c.split(".")[-1] for c in sel[0].stmt.columns]
         key_of_col = {}
+        from ..trace import deep
+
+        rowvars = {norm(t) for n in walk_own(fi.node) for t in ([n.target] if isinstance(n, ast.For) else (n.targets if isinstance(n, ast.Assign) and isinstance(n.value, ast.Call) and isinstance(n.value.func, ast.Attribute) and n.value.func.attr == "fetchone" else []))}
         for k, v in zip(dicts[0].keys, dicts[0].values):
-            idxs = [n.slice.value for n in ast.walk(v) if isinstance(n, ast.Subscript) and isinstance(n.value, ast.Name) and n.value.id == "row" and isinstance(n.slice, ast.Constant)]
+            v = deep(v, fi, stop=rowvars)
+            idxs = [n.slice.value for n in ast.walk(v) if isinstance(n, ast.Subscript) and isinstance(n.value, ast.Name) and n.value.id in rowvars and isinstance(n.slice, ast.Constant)]
             if len(idxs) == 1 and idxs[0] < len(cols):
                 key_of_col[cols[idxs[0]]] = (k.value, norm(v))
         composite = {p: key_of_col.get(col, (None,))[0] for p, (col, _) in col_of_param.items()}
@@ -67,13 +129,10 @@ def field_tables(prog, rep):
     rep.check(d is not None and d[1].startswith("json.dumps("), "FIELDS", "SqliteStorage.create_bucket", "data encoding", "json.dumps(data or {})", "bucket data is not encoded with json.dumps", ins[0].loc() if ins else None)
     # ---- sqlite update pairs
     up = prog.func("SqliteStorage.update_bucket")
-    pairs = single_def(up, "update_values")
+    um = update_model(prog, up)
     umap = {}
-    if isinstance(pairs, ast.List):
-        for t in pairs.elts:
-            if isinstance(t, ast.Tuple) and len(t.elts) == 2 and isinstance(t.elts[0], ast.Constant):
-                p = _strip_json(t.elts[1])
-                umap[p] = "data" if t.elts[0].value == "datastr" else t.elts[0].value
+    for col, ve in um["pairs"]:
+        umap[_strip_json(ve)] = "data" if col == "datastr" else col
     rep.check(umap == UPDATE_MAP, "FIELDS", up.short, "update table", f"{umap}", f"update_bucket writes parameter->column {umap}, expected {UPDATE_MAP}", up.loc(), expected=UPDATE_MAP, found=umap)
     # ---- peewee
     chains = peewee_chains(prog)
@@ -162,18 +221,13 @@ def guarded_updates(prog, rep):
                 rep.check(ok, "GUARDED", fi.short, f"write of {norm(t)}", f"guarded by `{norm(pr.test) if isinstance(pr, ast.If) else ''}`", f"`{norm(n)}` is not guarded by a test of `{p}`: a field the caller did not supply is overwritten (with None)", fi.loc(n))
         rep.floor(f"{cname}.update_bucket field writes", n_w, 5)
     fi = prog.func("SqliteStorage.update_bucket")
-    t = norm(fi.node)
-    idiom = "updates, values = zip(*[(k, v) for (k, v) in update_values if v is not None])" in t or "updates, values = zip(*[(k, v) for k, v in update_values if v is not None])" in t
-    s = [x for x in sql_sites(prog) if x.fi is fi and x.stmt.kind == "update"]
-    ok = idiom and len(s) == 1 and s[0].stmt.setlist_dynamic and s[0].bind_star is not None and norm(s[0].bind_star.elts[0]) == "*values" and 'for u in updates' in t
-    rep.check(ok, "GUARDED", fi.short, "SET list from supplied fields", "pairs filtered by `v is not None`, columns and bindings in the same order", "the SET list is not built from exactly the supplied (non-None) fields, or columns and bindings are no longer paired", fi.loc())
+    um = update_model(prog, fi)
+    rep.check(um["ok"], "GUARDED", fi.short, "SET list from supplied fields", "pairs filtered by `v is not None`, columns and bindings in the same order", f"the SET list is not built from exactly the supplied (non-None) fields, or columns and bindings are no longer paired ({um['why']})", fi.loc())
     # datastr pair must stay None when data is None
-    pairs = single_def(fi, "update_values")
     okd = False
-    if isinstance(pairs, ast.List):
-        for tpl in pairs.elts:
-            if isinstance(tpl, ast.Tuple) and isinstance(tpl.elts[0], ast.Constant) and tpl.elts[0].value == "datastr":
-                okd = norm(tpl.elts[1]) in ("json.dumps(data) if data is not None else None",)
+    for col, ve in um["pairs"]:
+        if col == "datastr":
+            okd = norm(ve) in ("json.dumps(data) if data is not None else None", "None if data is None else json.dumps(data)")
     rep.check(okd, "GUARDED", fi.short, "data pair", "json.dumps(data) if data is not None else None", "the data column is written even when no data was supplied (json.dumps(None) = 'null')", fi.loc())
 
 
